@@ -26,7 +26,8 @@ type c18Scenario struct {
 	PeerDrops  bool       `json:"peer_drops_when_keepalive_fails,omitempty"`              // the read side notices the loss while the keepalive is closing the transport
 	UnstallMs  int        `json:"peer_reads_again_after_ms,omitempty"`                    // with peer_stops_reading: the peer reads again this long after it closed the stream (0: never)
 	Prior      bool       `json:"after_an_earlier_session_ended_by_disconnect,omitempty"` // the same client had a session before, which the application ended with Disconnect
-	Stalled    bool       `json:"peer_stops_reading,omitempty"`                           // the server stops reading (a sender and then the keepalive block in write) and later closes the stream
+	StalledAck bool       `json:"ack_request_while_peer_does_not_read,omitempty"`
+	Stalled    bool       `json:"peer_stops_reading,omitempty"` // the server stops reading (a sender and then the keepalive block in write) and later closes the stream
 	EndAfterNs int64      `json:"end_after_ns,omitempty"`
 	Ticks      int        `json:"observe_ticks"`
 	LatencyNs  int64      `json:"latency_ns"`
@@ -39,7 +40,7 @@ func init() {
 		Real:  []string{"keepalive goroutine and ticker", "XMPPTransport.Ping / Close", "xmpp.Client recv loop"},
 		Stub:  []string{"TCP (simnet) with write-failure injection", "XMPP server (scripted model)", "clock (synctest)", "goroutine scheduling (token scheduler)"},
 		Run:   runC18,
-		Reach: []string{"c18.websocket", "c18.tls", "c18.keepalive_write_failed", "c18.reconnect_in_callback", "c18.peer_stops_reading", "c18.after_an_earlier_session"},
+		Reach: []string{"c18.websocket", "c18.tls", "c18.keepalive_write_failed", "c18.reconnect_in_callback", "c18.peer_stops_reading", "c18.ack_request_while_peer_does_not_read", "c18.after_an_earlier_session"},
 	})
 }
 
@@ -87,6 +88,8 @@ func runC18(e *Engine, g G, o RunOpt) RunInfo {
 		sc.Stalled = true
 		sc.LatencyNs = 0
 		sc.UnstallMs = []int{0, 5000}[g.N("unstall", 2)]
+		// the server also asks for an acknowledgement: the answer is one more write held up
+		sc.StalledAck = g.Bool("stalled-ack-request")
 	}
 	sc.Prior = !sc.Client.WebSocket && !sc.TLS && !sc.Reconnect && g.Pct("prior-session", 15)
 	e.Net.Latency = time.Duration(sc.LatencyNs)
@@ -201,6 +204,10 @@ func runC18(e *Engine, g G, o RunOpt) RunInfo {
 				s.W.Client.SendRaw("<message id='big' to='peer@" + SimDomain + "'><body>" + strings.Repeat("x", 1000) + "</body></message>")
 			})
 			e.Probe("c18.peer_stops_reading")
+			if sc.StalledAck {
+				s.Conn.Send("<r xmlns='" + nsSM + "'/>")
+				e.Probe("c18.ack_request_while_peer_does_not_read")
+			}
 		}
 		if sc.Busy {
 			e.Go("busy", func() {
